@@ -2789,22 +2789,18 @@ class Network(Cached):
         :return: Entry [i,j] is the betweenness of the link between i and j,
                  or 0 if i is not linked to j.
         """
+        #  Directions are not respected: work on the undirected version of a
+        #  directed network (reciprocal links collapse into one link)
+        graph = self.graph.as_undirected() if self.directed else self.graph
+
         #  Calculate link betweenness
-        link_betweenness = self.graph.edge_betweenness()
+        link_betweenness = graph.edge_betweenness()
 
-        #  Initialize
-        result, ecount = np.zeros((self.N, self.N)), 0
-
-        #  Get graph adjacency list
-        A_list = self.graph.get_adjlist()
-
-        #  Write link betweenness values to matrix
-        for i, Ai in enumerate(A_list):
-            for j in Ai:
-                #  Only visit links once
-                if i < j:
-                    result[i, j] = result[j, i] = link_betweenness[ecount]
-                    ecount += 1
+        #  Write link betweenness values to matrix, link by link
+        result = np.zeros((self.N, self.N))
+        for edge, value in zip(graph.es, link_betweenness):
+            i, j = edge.tuple
+            result[i, j] = result[j, i] = value
         return result
 
     def edge_betweenness(self):
